@@ -59,6 +59,7 @@ impl PartialLookup<Rc<OwnedFd>> {
 }
 //@item src/resolvers.rs :: enum ResolverBackend | sub.ResolverBackend
 //@item src/resolvers.rs :: struct Resolver | sub.Resolver
+//@include prelude/resolver_cfg.rs
 pub mod openat2 {
     use super::*;
 //@use openat2.open
